@@ -375,8 +375,10 @@ ModesEquivariant(c, st) ==
              /\ DM!NormKey(dm2, st.c.vecs[n]) = DM!NormKey(dm, c.vecs[n])
              /\ \A f \in 1..NFrames(c) : CommonPhase(c, st, dm, dm2, n, f)
         \* and, through the definitions of module DensityModes, for one generic vector: the integer
-        \* circular correlations W_ab (hence S_ab) are equal with the columns renamed
-        /\ LET n == 4
+        \* circular correlations W_ab (hence S_ab) are equal with the columns renamed (cells whose phase
+        \* grid is small enough for the O(M^3) sequence arithmetic of that module)
+        /\ dm.M <= 21 =>
+           LET n == 4
                CT == DM!CountTable(dm, c.vecs[n])  CT2 == DM!CountTable(dm2, st.c.vecs[n]) IN
            \A a, b \in 0..NSpecies(c) :
              (((a = 0) <=> (b = 0)) /\ a <= b) => DM!WT(dm2, CT2, sg(a), sg(b)) = DM!WT(dm, CT, a, b)
